@@ -297,6 +297,23 @@ def check_scalar(cname, rP, k, seed, acc, size=None, ops=("mul", "rmul", "imul",
 
 
 # ---------------------------------------------------------------------------
+# structured scalar sweeps (thorough tier)
+# ---------------------------------------------------------------------------
+def check_sweep(cname, rP, fam, w, lo, hi, seeds, acc, pidx=0):
+    """every scalar of the steps lo..hi-1 of a sweep family (see _c06_ref.sweep_families) x every blinding seed on the point rP;
+    the reference values come from an addition chain of the affine group law (H.sweep_ref) and are what check_scalar compares with"""
+    A = ref_eval(cname, rP)
+    ops = ("mul", "rmul") if rP == ("reg",) else ("mul", "imul")
+    per = ((1 << w) - 1) if fam == "digit" else 3
+    for j, (lab, k, V) in enumerate(H.sweep_ref(cname, A, fam, w, lo, hi)):
+        for si, seed in enumerate(seeds):
+            check_scalar(cname, rP, k, seed, acc, size=5 * 10**6 + ((lo * per + j) * 8 + pidx) * 8 + si, ops=ops)
+            acc.count("sweep_cases")
+        acc.count("sweep_scalars/%s/%s%s" % (cname, fam, w or ""))
+    acc.seen("sweep", (cname, fam, w, rP == ("reg",)))
+
+
+# ---------------------------------------------------------------------------
 # operator histories on one mutable point
 # ---------------------------------------------------------------------------
 def hist_ops(cname, alpha, reduced=False):
